@@ -43,6 +43,12 @@ type Subc = SubscriberClient<Wire>;
 #[derive(Clone)]
 pub struct Wire(Routes);
 
+impl Wire {
+    pub fn new(routes: Routes) -> Self {
+        Wire(routes)
+    }
+}
+
 fn sanitize_headers(h: &mut http::HeaderMap) {
     if let Some(v) = h.get("grpc-message") {
         if v.as_bytes().contains(&b'%') {
